@@ -791,7 +791,16 @@ BAND_STRUCTS = {
     "Scoring": [("gap_open", "i32"), ("gap_extend", "i32"), ("match_scores", "Option<(i32, i32)>"), ("xclip_prefix", "i32"),
                 ("xclip_suffix", "i32"), ("yclip_prefix", "i32"), ("yclip_suffix", "i32")],
     "SparseAlignmentResult": [("path", "Vec<usize>"), ("score", "u32"), ("dp_vector", "Vec<(u32, i32)>")],
+    # `bio_types::alignment::Alignment` (external crate: the field order of the tuple is this spec's)
+    "Alignment": [("score", "i32"), ("ystart", "usize"), ("xstart", "usize"), ("yend", "usize"), ("xend", "usize"),
+                  ("ylen", "usize"), ("xlen", "usize"), ("operations", "Vec<AlignmentOperation>"), ("mode", "AlignmentMode")],
+    # `banded::Aligner`: the fields the glue reads; `dp` stands for `S, I, D, Lx, Ly, Sn, traceback` (opaque)
+    "Aligner": [("scoring", "Scoring"), ("band", "Band"), ("k", "usize"), ("w", "usize"), ("dp", "Dp")],
 }
+BAND_ENUMS = {"AlignmentOperation": [("Match", []), ("Subst", []), ("Del", []), ("Ins", []), ("Xclip", ["usize"]), ("Yclip", ["usize"])],
+              "AlignmentMode": [("Local", []), ("Semiglobal", []), ("Global", []), ("Custom", [])]}
+ALN_T = "Int × Nat × Nat × Nat × Nat × Nat × Nat × (List AlignmentOperation) × AlignmentMode"
+ALIGNER_T = "(Int × Int × (Option (Int × Int)) × Int × Int × Int × Int) × (Nat × Nat × (List (Nat × Nat))) × Nat × Nat × Dp"
 BAND_PINNED = [
     "struct Band { rows: usize, cols: usize, ranges: Vec<Range<usize>>, }",
     "trait MatchPair { fn continues(&self, p: Option<(u32, u32)>) -> bool; }",
@@ -813,7 +822,10 @@ P_XYKWS = [("x", "TextSlice"), ("y", "TextSlice"), ("k", "usize"), ("w", "usize"
 
 unit(
     name="SrcBand", props="property C02", file=BANDED, imports=["RbV.Gen.Limits"],
-    structs=BAND_STRUCTS, pinned_items=BAND_PINNED, consts=BAND_CONSTS,
+    structs=BAND_STRUCTS, pinned_items=BAND_PINNED + [
+        "pub struct Aligner<F: MatchFunc> { S: [Vec<i32>; 2], I: [Vec<i32>; 2], D: [Vec<i32>; 2], Lx: Vec<usize>, Ly: Vec<usize>, "
+        "Sn: Vec<i32>, traceback: Traceback, scoring: Scoring<F>, band: Band, k: usize, w: usize, }"],
+    consts=BAND_CONSTS, enums=BAND_ENUMS,
     functions=[
         dict(name="continues", lean="continues", callkey="(u32, u32)::continues", self="(u32, u32)",
              header="fn continues(&self, p: Option<(u32, u32)>) -> bool", params=[("p", "Option<(u32, u32)>")], ret="bool",
@@ -858,6 +870,18 @@ unit(
              abs_calls={"sparse::find_kmer_matches": dict(lean="findKmerMatches", params=["TextSlice", "TextSlice", "usize"],
                                                           ret="Vec<(u32, u32)>", monadic=True)},
              theorem="RbV.Thm.GenSrcBand.create_eq_model"),
+        # the head of `compute_alignment`: budget guard and empty-input test; the DP itself (from `self.traceback.init(m, n);`
+        # on) and `degenerate_alignment` are abstract parameters
+        dict(name="Aligner::compute_alignment", lean="computeAlignment", callkey="Aligner::compute_alignment", self="Aligner",
+             self_mut=True, generics={"Dp": "Dp"},
+             header="fn compute_alignment(&mut self, x: TextSlice<'_>, y: TextSlice<'_>) -> Alignment",
+             params=[("x", "TextSlice"), ("y", "TextSlice")], ret="Alignment",
+             abstract=[("degenerate", "%s → Nat → Nat → %s" % (ALIGNER_T, ALN_T)),
+                       ("fillTrace", "%s → List Nat → List Nat → Nat → Nat → Res ((%s) × (%s))" % (ALIGNER_T, ALN_T, ALIGNER_T))],
+             abs_calls={"Aligner::degenerate_alignment": dict(lean="degenerate", params=["usize", "usize"], ret="Alignment",
+                                                              monadic=False)},
+             rest_call=dict(marker="self.traceback.init(m, n);", lean="fillTrace", args=["self", "x", "y", "m", "n"]),
+             theorem="RbV.Thm.GenSrcBand.computeAlignment_guard_eq"),
     ])
 
 
